@@ -14,7 +14,15 @@ const LETTERS: &[&str] = &["a", "b", "c", "d", "e", "g", "h", "i"];
 const FOREIGN: &[&str] = &["x", "y", "z"];
 const MARKERS: &[&str] = &["f13", "f14", "f15", "f16", "f17", "f18"];
 const MARKERS_OUT: &[&str] = &["F13", "F14", "F15", "F16", "F17", "F18"];
-const MODS: &[(&str, &str, u8)] = &[("S", "lsft", 1), ("C", "lctl", 2), ("A", "lalt", 4)];
+/// (prefix as written, key as the expansion sees it - the run-time treats left and right shift /
+/// ctrl / meta as the same key -, mask bit, the physical keys that type it)
+const MODS: &[(&str, &str, u8, &[&str])] = &[
+    ("S", "lsft", 1, &["lsft", "lsft", "rsft"]),
+    ("C", "lctl", 2, &["lctl", "lctl", "rctl"]),
+    ("A", "lalt", 4, &["lalt"]),
+    ("RS", "lsft", 1, &["rsft", "lsft"]),
+    ("RC", "lctl", 2, &["rctl", "lctl"]),
+];
 
 #[derive(Clone, Debug, PartialEq)]
 enum Item {
@@ -315,7 +323,9 @@ impl Prop for C12 {
                             typed.push(k.clone());
                         }
                         Item::Modded(m, ks) => {
-                            ops.push(Op::Press(code(MODS[*m].1)));
+                            // either hand's modifier types it
+                            let phys = *r.pick(MODS[*m].3);
+                            ops.push(Op::Press(code(phys)));
                             ops.push(Op::Gap(small(r)));
                             for k in ks {
                                 *end_at = ops.len();
@@ -325,7 +335,7 @@ impl Prop for C12 {
                                 ops.push(Op::Gap(small(r)));
                                 typed.push(k.clone());
                             }
-                            ops.push(Op::Release(code(MODS[*m].1)));
+                            ops.push(Op::Release(code(phys)));
                             ops.push(Op::Gap(small(r)));
                         }
                         Item::Overlap(ks) => {
@@ -354,7 +364,29 @@ impl Prop for C12 {
                 }
                 "foreign" => {
                     type_items(&mut r, &mut ops, &mut typed, &s[..cut], &mut end_at);
-                    let x = *r.pick(FOREIGN);
+                    let mut x = r.pick(FOREIGN).to_string();
+                    // the terminating key may also be a key that occurs in the table, as long as no
+                    // sequence continues with it from here (after plain keys only, so that "what
+                    // was typed" is unambiguous)
+                    if cut >= 1 && s[..cut].iter().all(|it| matches!(it, Item::Plain(_))) && r.chance(350) {
+                        let typed_now: Vec<Tok> = typed.iter().map(|k| (k.clone(), 0u8, false)).collect();
+                        let cands: Vec<String> = letters
+                            .iter()
+                            .filter(|l| {
+                                let mut t = typed_now.clone();
+                                t.push(((*l).clone(), 0, false));
+                                !seqs.iter().any(|q| expansions(q).iter().any(|e| {
+                                    let e: Vec<Tok> = e.iter().filter(|t| !t.0.is_empty()).map(|t| (t.0.clone(), t.1, false)).collect();
+                                    e.len() >= t.len() && e[..t.len()] == t[..]
+                                }))
+                            })
+                            .cloned()
+                            .collect();
+                        if let Some(c) = r.pick_opt(&cands) {
+                            x = c.clone();
+                        }
+                    }
+                    let x = x.as_str();
                     end_at = ops.len();
                     ops.push(Op::Press(code(x)));
                     ops.push(Op::Gap(2));
@@ -575,7 +607,22 @@ impl Prop for C12 {
             let seg_outs = &outs[seg_first_out..seg_last_out];
             let markers: Vec<usize> = seg_outs.iter().filter(|e| e.kind == OutKind::Press).filter_map(|e| marker_idx(&e.key)).collect();
             let expect_marker = matches!(sg.kind.as_str(), "complete" | "timeout-alive");
-            let ftags: Vec<String> = if tricky.get(sg.seq).copied().unwrap_or(false) { vec!["typed-prefix-shared-with-differently-encoded-sequence".to_string()] } else { vec![] };
+            let mut ftags: Vec<String> = if tricky.get(sg.seq).copied().unwrap_or(false) { vec!["typed-prefix-shared-with-differently-encoded-sequence".to_string()] } else { vec![] };
+            if sg.kind == "foreign" && sg.typed.len() >= 2 {
+                // cause of the known finding 'front backtracking': the keys typed in this segment were
+                // all plain and some proper suffix of them (ending in the terminating key) is itself a
+                // sequence of the table or the beginning of one
+                let n_items = sg.typed.len() - 1;
+                let all_plain = table.seqs[sg.seq].len() >= n_items && table.seqs[sg.seq][..n_items].iter().all(|it| matches!(it, Item::Plain(_)));
+                if all_plain {
+                    let toks: Vec<Tok> = sg.typed.iter().map(|k| (k.clone(), 0u8, false)).collect();
+                    // (a complete sequence fires; the beginning of one keeps sequence mode alive)
+                    let suffix_is_seq = (1..toks.len()).any(|from| exps.iter().any(|es| es.iter().any(|e| e.len() >= toks.len() - from && e[..toks.len() - from] == toks[from..])));
+                    if suffix_is_seq {
+                        ftags.push("suffix-of-typed-keys-is-another-sequence".to_string());
+                    }
+                }
+            }
             let show = || format!("segment {:?} of v{} ({}) ops[{}..{}]: {} :: outputs {}", sg.kind, sg.seq, table.seqs[sg.seq].iter().map(item_text).collect::<Vec<_>>().join(" "), sg.from, sg.to, ops_short(&case.ops[sg.from..sg.to]), outs_short(seg_outs));
             if expect_marker {
                 if markers != vec![sg.seq] {
